@@ -20,10 +20,10 @@ META = {
             "in-place NUL termination. Theorems (Properties_C39.v, closed under the global context): for EVERY datagram and "
             "EVERY stale buffer content the ICP and HTCP decoders never leave their receive buffers (sizes and receive limits "
             "regenerated from the tree), every decoded field lies inside the received bytes, and no loop budget is exhausted; "
-            "for SNMP the full statement is REFUTED (a 4095-byte datagram makes asn_parse_length read one to three bytes past "
-            "snmpHandleUdp's 4096-byte buffer -- known finding C39-snmp-tail-overread, reproduced under AddressSanitizer on "
-            "every run) and PROVED for every datagram of at most size-6 bytes and, independently of the size, for every "
-            "buffer with six bytes of slack. Tie: constants, bit-field maps and receive limits regenerated from the tree; "
+"the same is proved for SNMP (every datagram up to the receive limit; on any object one spare byte after the decoded "
+            "bytes suffices) since /repo 71f8893 added asn_header_fits to the ASN.1 readers -- the former finding "
+            "C39-snmp-tail-overread (a 4095-byte datagram read 1..3 bytes past snmpHandleUdp's buffer) is now a theorem and a "
+            "regression case. Tie: constants, bit-field maps and receive limits regenerated from the tree; "
             "extracted model diffed against the ASan-built real decoders on generated datagrams; reply/no-reply of the "
             "running squid diffed against the model on a datagram storm with HTTP liveness probes.",
     "note": "partial: the proofs are about the modelled decoders only. What squid does with a decoded message (ACL checks, "
@@ -36,7 +36,7 @@ META = {
             "error) are excluded from the sanitizer set. Trusted: Coq kernel, extraction, gen/gen_adversarial.cc, "
             "gen/gen_udpbufs.py (text patterns), harness/h_adversarial.cc, vlib/lab.py.",
     "technique": "Coq proof (invariant 'cursor + remaining length <= received length' carried through every reader, induction on "
-                 "loop fuel; vm_compute witness for the refutation) + extracted-model differential correspondence against "
+                 "loop fuel) + extracted-model differential correspondence against "
                  "AddressSanitizer-instrumented real decoders + end-to-end datagram storm on the running squid",
 }
 
@@ -408,9 +408,6 @@ def oracle(case, out):
     if entry == "snmp.exact":
         return None            # a buffer of exactly the datagram size is not squid's buffer; only the correspondence matters
     if out == "OOB":
-        if entry == "snmp.udp" and ln + 5 >= size:
-            return ("oracle:snmp-tail-overread", "AddressSanitizer: a %d-byte SNMP datagram makes the ASN.1 readers read past the "
-                    "%d-byte receive buffer" % (ln, size))
         return ("oracle:oob-read:" + entry, "AddressSanitizer: out-of-bounds read in the decoder (received %d bytes, buffer %d)" % (ln, size))
     if out.startswith("ASAN"):
         return ("oracle:asan:" + entry + ":" + "-".join(out.split()[1:]), "AddressSanitizer report in the decoder: " + out)
